@@ -92,7 +92,8 @@ fn cmd_run(args: &[String]) {
     let mut res = res;
     if let Some((idx, f)) = res.failure.take() {
         violations = 1;
-        eprintln!("violation found at run {}: {}:{} {}", idx, f.violation.property, f.violation.class, f.violation.msg);
+        let where_ = if idx >= u64::MAX - 1 { "in the fixed (non-seeded) part".to_string() } else { format!("at run {}", idx) };
+        eprintln!("violation found {}: {}:{} {}", where_, f.violation.property, f.violation.class, f.violation.msg);
         let min = engine.minimise(f, &known);
         let path = write_replay_file(engine.as_ref(), seed, idx, &min);
         // replay in a fresh process: must fail the same way
